@@ -13,20 +13,69 @@ from .mir import Body, operand_local
 from .report import Finding
 from .ctflow import norm_name
 
+# per context type: the *types* of fields that are dead buffers after a reset (reviewed).  Field names are not used, so
+# renaming a private field changes nothing.  Configuration fields (kept across resets by design: output length, saved
+# key) are recognised structurally: no `&mut self` method of the type other than constructors ever stores to them.
 CONTEXT_TYPES = {
-    "crrl::sha2::SHA2Small": ["buf"],
-    "crrl::sha2::SHA2Big": ["buf"],
+    "crrl::sha2::SHA2Small": ["[u8; 64]"],
+    "crrl::sha2::SHA2Big": ["[u8; 128]"],
     "crrl::sha3::SHA3Core": [],
     "crrl::sha3::SHAKE": [],
-    "crrl::blake2s::Blake2s": ["out_len"],
-    "crrl::blake2s::KeyedBlake2s": ["saved_key", "saved_key_len"],
+    "crrl::blake2s::Blake2s": [],
+    "crrl::blake2s::KeyedBlake2s": [],
 }
 DEAD_WHY = {
-    "buf": "block buffer: its content is dead while the byte counter is zero (overwritten before being read)",
-    "out_len": "configuration, not state: reset keeps the output length chosen at construction",
-    "saved_key": "configuration: the key is kept across resets and re-injected by reset",
-    "saved_key_len": "configuration: kept across resets",
+    "[u8; 64]": "block buffer: its content is dead while the byte counter is zero (overwritten before being read)",
+    "[u8; 128]": "block buffer: its content is dead while the byte counter is zero (overwritten before being read)",
 }
+
+
+def config_fields(facts, tname, nfields):
+    """indices of fields of type tname that no method taking `&mut self` ever assigns (directly): set once at
+    construction, hence configuration rather than state"""
+    stored = set()
+    for fn in facts.fns.values():
+        if norm_name(fn.get("self_adt") or "") != tname or fn["argc"] < 1:
+            continue
+        td = facts.ty(fn["locals"][1][0])
+        if not (td.get("k") in ("ref", "ptr") and td.get("mut")):
+            continue
+        for b in fn["blocks"]:
+            for st in b["s"]:
+                if st[0] == "A" and st[1][0] == 1 and len(st[1]) >= 3 and st[1][1] == "*" and st[1][2] != "*" and st[1][2][0] == "f":
+                    stored.add(st[1][2][1])
+                elif st[0] == "A" and st[1][0] == 1 and len(st[1]) == 2 and st[1][1] == "*":
+                    stored |= set(range(nfields))      # `*self = ..`
+            t = b["t"]
+            if t[0] == "call":
+                # `&mut self.field` handed to a callee (copy_from_slice, set_*, fill ..): may store
+                body = None
+                for a in t[2]:
+                    l = operand_local(a)
+                    if l is None:
+                        continue
+                    if body is None:
+                        body = Body(fn)
+                    for _ in range(6):
+                        d = body.single_def(l)
+                        if not d or d[2] != "A":
+                            break
+                        rv = d[3][2]
+                        if rv[0] in ("ref", "rawptr") and rv[1]:
+                            pl = rv[2]
+                            if pl[0] == 1 and len(pl) >= 3 and pl[1] == "*" and pl[2] != "*" and pl[2][0] == "f":
+                                stored.add(pl[2][1])
+                            break
+                        if rv[0] in ("use", "cast") and (rv[1] if rv[0] == "use" else rv[2])[0] in ("cp", "mv"):
+                            l = (rv[1] if rv[0] == "use" else rv[2])[1][0]
+                            continue
+                        if rv[0] in ("ref", "rawptr") and len(rv[2]) >= 2 and rv[2][1] == "*" and rv[2][0] != 1:
+                            l = rv[2][0]
+                            continue
+                        break
+    return set(range(nfields)) - stored
+
+
 DOC_RESETS = re.compile(r"automatically\s+reset|(instance|context) is (then )?(also )?reset", re.I)
 DOC_NOT = re.compile(r"\bnot\s+reset", re.I)
 
@@ -111,6 +160,9 @@ def run_hashreset(facts, run, prop="C17"):
         if td.get("k") in ("ref", "ptr"):
             td = facts.ty(td["to"])
         fields = [f_[0] for f_ in td["variants"][0][2]]
+        ftypes = [facts.ty(f_[1]).get("s", "") for f_ in td["variants"][0][2]]
+        cfgf = config_fields(facts, tname, len(fields))
+        dead = [fields[i] for i in range(len(fields)) if ftypes[i] in dead or i in cfgf]
         summ = eng.summary(fn)
         written = set()
         whole = False
